@@ -15,6 +15,11 @@ CHECKS = {
     technique="TLA+ oracle Lag.tla evaluated by TLC over enumerated group/commit/listing situations; compared with kadm (binding O1)",
     text="Lag.tla defines the lag of a partition from (owner, commit, end listing, start listing) exactly as the property states. TLC enumerates cases (thorough: every state of one partition against every covered state of a second partition in the same and in another topic, 168k cases, plus random 3-4 partition cases) and prints expected lag and error flag; the runner builds DescribedGroup/OffsetResponses/ListedOffsets and compares CalculateGroupLag, CalculateGroupLagWithStartOffsets, Lookup/Sorted uniqueness, Total and TotalByTopic.",
     note="Offsets from {0,3,7,9}; at most 2 members and 4 partitions; listed-only partitions are outside the property and not asserted."),
+ "C36": dict(
+    level="exploration", design="5/C36, 4.13",
+    technique="TLA+ oracle SerdeHdr.tla: TLC computes wire bytes and verdicts over structural classes; compared with pkg/sr (binding O1)",
+    text="SerdeHdr.tla defines the Confluent header bytes (magic 0, big-endian id, index with single-zero shortcut, zig-zag varints) and the decoder verdicts. TLC generates ~2300 cases: exact Encode bytes for boundary ids x all index paths up to depth 3; DecodeID/UpdateID on short and wrong-magic inputs; DecodeIndex over declared-count classes (negative, zero shortcut, exceeding maxLength, exceeding the input, 2^62, overflowing, truncated) x indices present x maxLength; Serde.Decode/DecodeNew/Encode round trips against a fixed registry with unregistered ids/paths and truncations; panics are caught and reported.",
+    note="'Arbitrary bytes never panic' is decided for these structural classes only; unbounded byte strings are outside the technique (DESIGN.md section 6)."),
 }
 
 NOT_APPLICABLE = {
